@@ -155,6 +155,13 @@ pub fn space(thorough: bool) -> Vec<Prog> {
             }
         }
     }
+    // counts: n entries per stage around the powers of two
+    for n in [15usize, 16, 17, 31, 32, 33] {
+        let cs: Vec<CEntry> = (0..n).map(|i| CEntry { name: format!("count_cs_{i}"), size: (i * 3) % C_SIZES.len() }).collect();
+        let fs: Vec<FEntry> = (0..n).map(|i| FEntry { name: format!("count_fs_{i}"), shape: (i * 5) % F_SHAPES.len() }).collect();
+        let vs: Vec<VEntry> = (0..n).map(|i| VEntry { name: format!("count_vs_{i}"), params: V_PARAMS[i % 7].to_vec() }).collect();
+        out.push(build(vs, fs, cs, n % 2 == 0, format!("count|n={n}")));
+    }
     out
 }
 
